@@ -1,9 +1,10 @@
 (* Final statements about the processor model Model/Proc.v (proofs: Proofs/Proc.v).
    Referenced from Properties/C01.v, C02.v, C13.v, C15.v.
 
-   The model carries the protocol P1-P5 as guards of [pstep]; P5 (Spawn enters its events to the
+   The model carries the protocol P1-P6 as guards of [pstep]; P5 (Spawn enters its events to the
    right of the spawning action and never past a holder) was added for these theorems: without it the
-   ordering theorem is false ([proc_outs_increasing_noP5_refuted] below). *)
+   ordering theorem is false ([proc_outs_increasing_noP5_refuted] below).  P6 (PSkipTo: an event skips
+   only idle actions) is needed likewise ([proc_outs_increasing_noP6_refuted]). *)
 From Verif Require Import Base.Sx Model.Proc Proofs.Proc.
 From Coq Require Import Lia Bool List ZArith Sorted Permutation.
 Import ListNotations.
@@ -104,6 +105,43 @@ Proof.
   intros s H. vm_compute in H. inversion H; subst s. vm_compute. reflexivity.
 Qed.
 
+(* ---- necessity of P6 ---------------------------------------------------------------------------- *)
+(* [pstep_noP6] = [pstep] with PSkipTo allowed to skip a busy action *)
+Lemma proc_pstep_noP6_weaker : forall s l s', pstep s l = Some s' -> pstep_noP6 s l = Some s'.
+Proof. exact pstep_noP6_weaker. Qed.
+
+(* an event skipping a holder overtakes the held one *)
+Lemma proc_outs_increasing_noP6_refuted :
+  exists n ls s, prun_noP6 (pinit n) ls = Some s /\ ~ increasing (map pseq (filter ordered (rev (outs s)))).
+Proof. exact outs_increasing_noP6_refuted. Qed.
+
+Lemma proc_nothing_held_after_pass_noP6_refuted :
+  exists n ls e s, prun_noP6 (pinit n) (ls ++ [POut e]) = Some s /\ stack s = [] /\ held s <> [].
+Proof. exact held_nil_after_out_noP6_refuted. Qed.
+
+Example proc_P6_rejects_offending_trace : prun (pinit 2) w_skip_holder = None.
+Proof. vm_compute. reflexivity. Qed.
+
+(* 3 actions, action 1 holds e1.  The next event e2 cannot skip to action 2, neither from index 0 nor
+   (after passing action 0) from index 1; skipping the idle action 0 only is accepted *)
+Definition holder_at_1 : list plabel :=
+  [PTake (ev 1 0) 0; PDo (ev 1 0) 0 false; PResult (ev 1 0) 0 RPass; PDo (ev 1 0) 1 false; PResult (ev 1 0) 1 RHold;
+   PTake (ev 2 0) 0].
+
+Example proc_P6_rejects_skip_past_holder :
+  (forall s, prun (pinit 3) holder_at_1 = Some s ->
+     held s = [(1, ev 1 0)] /\ map fidx (stack s) = [0] /\
+     pstep s (PSkipTo (ev 2 0) 2) = None /\ pstep s (PSkipTo (ev 2 0) 3) = None /\
+     pstep s (PSkipTo (ev 2 0) 1) <> None) /\
+  (forall s, prun (pinit 3) (holder_at_1 ++ [PDo (ev 2 0) 0 false; PResult (ev 2 0) 0 RPass]) = Some s ->
+     held s = [(1, ev 1 0)] /\ map fidx (stack s) = [1] /\
+     pstep s (PSkipTo (ev 2 0) 2) = None /\ pstep s (PSkipTo (ev 2 0) 3) = None) /\
+  (forall s, prun (pinit 3) (holder_at_1 ++ [PSkipTo (ev 2 0) 1]) = Some s ->
+     map fidx (stack s) = [1] /\ pstep s (PSkipTo (ev 2 0) 2) = None).
+Proof.
+  split; [|split]; intros s H; vm_compute in H; inversion H; subst s; vm_compute; repeat split; discriminate.
+Qed.
+
 (* ---- examples ------------------------------------------------------------------------------------ *)
 (* 3 actions.  Action 0 holds e1.  e2 arrives: action 0 flushes e1, which passes action 1 and is held
    by action 2; action 0 then holds e2.  e3 arrives: action 0 flushes e2, which passes action 1 and
@@ -159,3 +197,4 @@ Print Assumptions proc_conservation_perm.
 Print Assumptions proc_nothing_held_after_pass.
 Print Assumptions proc_timeout_first_do_busy.
 Print Assumptions proc_outs_increasing_noP5_refuted.
+Print Assumptions proc_outs_increasing_noP6_refuted.
